@@ -8,8 +8,14 @@
 // instead of an assignment right-hand side. All printings run on the real lexer -> parser ->
 // interpreter and must give the same value and type; (2) must also equal the reference
 // evaluation of the tree (ref.go). Where the statement leaves a grouping open ('.' against
-// shift/comparison/equality/bitwise/logical operators, chains of comparisons, of equalities and
-// of ?:) the minimal printing keeps the parentheses, so nothing is demanded there.
+// shift/comparison/equality/bitwise/logical operators, chains of comparisons and of equalities)
+// the minimal printing keeps the parentheses, so nothing is demanded there. A chain of
+// conditionals  a ? b : c ? d : e  must group to the right or be rejected by the parser (ast.go,
+// ternaryChainsGroupRight).
+//
+// Form C (same-level chains): every tree built from the operators of ONE level of the table (all
+// of them), two sizes beyond what Form P reaches with all operators - associativity slips that
+// need three or more links, or a non-core operator of the level.
 package main
 
 import (
@@ -58,8 +64,8 @@ type assignment struct {
 
 // assignments of leaf values: every combination of booleans (at most 8), literal and variable
 // spelling of the leaves; ints / strings are distinct small constants rotated by the seed.
-func assignments(ts []typ, seed int64) []assignment {
-	return assignmentsWith(ts, intLeaves, int(seed%4+4)%4)
+func assignments(ts []typ, seed int64, maxCombos int) []assignment {
+	return assignmentsWith(ts, intLeaves, int(seed%4+4)%4, maxCombos)
 }
 
 // altInts: further constant lists tried (rotated) for a tree when the default constants give the
@@ -67,7 +73,7 @@ func assignments(ts []typ, seed int64) []assignment {
 // (-2) ** 5 == -(2 ** 5) because the exponent is odd).
 var altInts = [][]int{intLeaves, {2, 4, 3, 6}}
 
-func assignmentsWith(ts []typ, ints []int, rot int) []assignment {
+func assignmentsWith(ts []typ, ints []int, rot int, maxCombos int) []assignment {
 	var bpos []int
 	for i, t := range ts {
 		if t == tB {
@@ -75,13 +81,14 @@ func assignmentsWith(ts []typ, ints []int, rot int) []assignment {
 		}
 	}
 	combos := 1 << len(bpos)
-	if combos > 8 {
-		combos = 8
+	spread := combos > maxCombos
+	if spread {
+		combos = maxCombos
 	}
 	var out []assignment
 	for c := 0; c < combos; c++ {
 		pat := c
-		if len(bpos) > 3 { // 8 spread patterns out of 16+
+		if spread { // maxCombos spread patterns out of more
 			pat = c * 0x9E37 >> 2
 		}
 		for _, uv := range []bool{false, true} {
@@ -240,6 +247,8 @@ type shardArg struct {
 	Hi   int64 `json:"hi"`
 	Core bool  `json:"core"`
 	Seed int64 `json:"seed"`
+	// Group != "": the same-level chain family - only the operators of one level of the table
+	Group string `json:"group,omitempty"`
 }
 
 type caseT struct {
@@ -247,6 +256,7 @@ type caseT struct {
 	N       int      `json:"n"`
 	Idx     int64    `json:"idx"`
 	Core    bool     `json:"core"`
+	Group   string   `json:"group,omitempty"`
 	Seed    int64    `json:"seed"`
 	Assign  int      `json:"assignment"`
 	Print   string   `json:"printing"`
@@ -274,6 +284,7 @@ type rec struct {
 	Stake     int64          `json:"stake,omitempty"`
 	Explained int64          `json:"explained,omitempty"`
 	Extra     int64          `json:"extra,omitempty"`
+	Rejected  int64          `json:"rejected,omitempty"`
 	Fail      *failRec       `json:"fail,omitempty"`
 	Outcomes  map[string]int `json:"outcomes,omitempty"`
 	Edges     map[string]int `json:"edges,omitempty"`
@@ -319,6 +330,7 @@ type worker struct {
 	sample    bool
 	explained int64
 	extra     int64
+	rejected  int64
 	disc      map[string]int
 	alt       map[string]int
 }
@@ -475,6 +487,19 @@ func (w *worker) flush(ps []*pending) {
 					culprits = []edge{td.edges[i], td.edges[j]}
 					break
 				}
+			}
+		}
+		if strings.HasPrefix(p.outs[td.pr.name], "PARSE:") && len(culprits) > 0 {
+			// a dialect in which ?: is NON-associative (PHP 8) rejects the unparenthesised chain at
+			// parse time and takes it with parentheses: defensible, the chain then simply is not an
+			// expression of the language (never observed on origami; counted, not reported)
+			all := true
+			for _, e := range culprits {
+				all = all && e.chainEdge()
+			}
+			if all {
+				w.rejected++
+				continue
 			}
 		}
 		w.fail(p, td.pr.name, td.pr, culprits, td.edges)
@@ -684,7 +709,7 @@ func (w *worker) fail(p *pending, clause string, pr printing, culprits []edge, s
 	if len(fixes) > 0 {
 		detail += "\nadding parentheses restores the table's value at: " + strings.Join(fixes, ", ")
 	}
-	cs := caseT{Shape: p.t.sigText(), N: w.arg.N, Idx: p.idx, Core: w.arg.Core, Seed: w.arg.Seed, Assign: p.ai, Print: pr.name, Min: minTxt, Full: fullTxt,
+	cs := caseT{Shape: p.t.sigText(), N: w.arg.N, Idx: p.idx, Core: w.arg.Core, Group: w.arg.Group, Seed: w.arg.Seed, Assign: p.ai, Print: pr.name, Min: minTxt, Full: fullTxt,
 		Script: w.batch.BareScript(exprsem.Job{ID: "x", Src: source(p.t, p.a, pr)}), Fixes: fixes}
 	if len(culprits) > 0 {
 		cs.Culprit = culprits[0].key()
@@ -697,7 +722,11 @@ func (w *worker) fail(p *pending, clause string, pr printing, culprits []edge, s
 }
 
 func (w *worker) run(item func(string) bool) {
-	g := newGenerator(w.arg.Core)
+	g := newGenerator(w.arg.Core, w.arg.Group)
+	maxCombos := 8
+	if w.arg.Group != "" {
+		maxCombos = 16 // chains of ?: with int / string branches: every combination of the 4 conditions
+	}
 	var ps []*pending
 	g.forEachTree(w.arg.N, func(idx int64, proto *node) bool {
 		if idx < w.arg.Lo {
@@ -724,7 +753,7 @@ func (w *worker) run(item func(string) bool) {
 				w.alt[e.key()] = 1
 			}
 		}
-		as := assignments(ts, w.arg.Seed)
+		as := assignments(ts, w.arg.Seed, maxCombos)
 		refs := make([]string, len(as))
 		open := map[int]bool{} // edges not yet told apart from their opposite grouping
 		for i := range stakes {
@@ -760,7 +789,7 @@ func (w *worker) run(item func(string) bool) {
 				if li == 0 && r == base {
 					continue
 				}
-				cand := assignmentsWith(ts, altInts[li], r)
+				cand := assignmentsWith(ts, altInts[li], r, maxCombos)
 				var crefs []string
 				hit := false
 				for _, a := range cand {
@@ -788,14 +817,14 @@ func (w *worker) run(item func(string) bool) {
 		}
 		if !w.sample && w.arg.Lo == 0 && t.size() >= 2 && len(t.atStake()) > 0 {
 			w.sample = true
-			a := assignments(ts, w.arg.Seed)[0]
+			a := assignments(ts, w.arg.Seed, maxCombos)[0]
 			lt := func(n *node) string { return a.lits[n.leaf] }
 			w.em.Emit(rec{Kind: "sample", Sample: map[string]any{"shape": t.sigText(), "minimal": t.print(printings[0].st, lt), "full": t.print(printings[1].st, lt), "redundant": t.print(printings[2].st, lt), "reference": refOutcome(w.ref, t, a)}})
 		}
 		return true
 	})
 	w.flush(ps)
-	w.em.Emit(rec{Kind: "count", Trees: w.trees, Cases: w.cases, Evals: w.evals, Scripts: w.batch.Scripts, Stake: w.stake, Explained: w.explained, Extra: w.extra, Outcomes: w.out, Edges: w.edges, Disc: w.disc, Alt: w.alt})
+	w.em.Emit(rec{Kind: "count", Trees: w.trees, Cases: w.cases, Evals: w.evals, Scripts: w.batch.Scripts, Stake: w.stake, Explained: w.explained, Extra: w.extra, Rejected: w.rejected, Outcomes: w.out, Edges: w.edges, Disc: w.disc, Alt: w.alt})
 }
 
 func handler(pw *pool.W, raw json.RawMessage) {
@@ -840,29 +869,34 @@ func main() {
 	if !c.Quick() {
 		maxFull, coreSize = 3, 4
 	}
+	chainMax := coreSize + 1
 	if v := os.Getenv("C04_MAXFULL"); v != "" {
 		fmt.Sscan(v, &maxFull)
 		coreSize = maxFull + 1
 	}
 	counts := map[string]int64{}
-	var trees, cases, evals, scripts, stake, explained, extra int64
+	var trees, cases, evals, scripts, stake, explained, extra, rejected, chainTrees int64
 	outcomes := map[string]int{}
 	edges := map[string]int{}
 	disc := map[string]bool{}
 	hasAlt := map[string]bool{}
 	completed := "nothing"
-	runLevel := func(n int, core bool) {
-		if c.Expired() {
-			c.NotExhaustive("wall-clock budget reached; completed: " + completed)
-			return
-		}
-		g := newGenerator(core)
+	mkShards := func(n int, core bool, group string) []pool.Shard {
+		g := newGenerator(core, group)
 		var total int64
 		g.forEachTree(n, func(idx int64, t *node) bool { total = idx + 1; return true })
-		counts[fmt.Sprintf("trees_with_%d_operators_core=%v", n, core)] = total
+		if group != "" {
+			counts[fmt.Sprintf("chains_of_%d_operators_level=%s", n, group)] = total
+			chainTrees += total
+		} else {
+			counts[fmt.Sprintf("trees_with_%d_operators_core=%v", n, core)] = total
+		}
 		per := total/96 + 1
 		if per > 3000 {
 			per = 3000
+		}
+		if group != "" && per < 12 {
+			per = 12 // many small levels share one pool run
 		}
 		var shards []pool.Shard
 		for lo := int64(0); lo < total; lo += per {
@@ -870,7 +904,17 @@ func main() {
 			if hi > total {
 				hi = total
 			}
-			shards = append(shards, pool.Shard{Kind: "c04", Arg: shardArg{N: n, Lo: lo, Hi: hi, Core: core, Seed: c.Seed}})
+			shards = append(shards, pool.Shard{Kind: "c04", Arg: shardArg{N: n, Lo: lo, Hi: hi, Core: core, Group: group, Seed: c.Seed}})
+		}
+		return shards
+	}
+	runShards := func(shards []pool.Shard, label string) {
+		if c.Expired() {
+			c.NotExhaustive("wall-clock budget reached; completed: " + completed)
+			return
+		}
+		if len(shards) == 0 {
+			return
 		}
 		pool.Run(shards, pool.Options{}, func(si int, rb json.RawMessage) {
 			var r rec
@@ -884,6 +928,7 @@ func main() {
 				stake += r.Stake
 				explained += r.Explained
 				extra += r.Extra
+				rejected += r.Rejected
 				for k, v := range r.Outcomes {
 					outcomes[k] += v
 				}
@@ -907,12 +952,26 @@ func main() {
 		}, func(d pool.Death) {
 			c.Fail("worker-death:"+runner.FatalFrame(d.Stderr), "crash", 0, map[string]any{"item": d.Item, "reason": d.Reason}, d.Stderr)
 		})
-		completed = fmt.Sprintf("trees with <= %d operators (core set only: %v)", n, core)
+		completed = label
 	}
 	for n := 1; n <= maxFull; n++ {
-		runLevel(n, false)
+		runShards(mkShards(n, false, ""), fmt.Sprintf("trees with <= %d operators over all operators", n))
 	}
-	runLevel(coreSize, true)
+	runShards(mkShards(coreSize, true, ""), fmt.Sprintf("trees with <= %d operators over all operators and with %d over the core set", maxFull, coreSize))
+	// same-level chains: every tree built from the operators of ONE level (all of them, not only the
+	// core set), from the first size the mixed trees do not reach with all operators up to chainMax
+	// operators (one fewer for the levels with many operators)
+	var chainShards []pool.Shard
+	for _, cg := range chainGroups {
+		hi := chainMax
+		if cg.wide {
+			hi--
+		}
+		for n := maxFull + 1; n <= hi; n++ {
+			chainShards = append(chainShards, mkShards(n, false, cg.name)...)
+		}
+	}
+	runShards(chainShards, "all mixed trees and the same-level chains")
 	for k, v := range outcomes {
 		c.Outcome(k)
 		c.Add("outcome:"+k, int64(v))
@@ -938,6 +997,9 @@ func main() {
 	c.Set("edges_whose_parentheses_were_dropped", stake)
 	c.Set("failing_cases_reduced_to_a_smaller_failing_subexpression", explained)
 	c.Set("extra_constant_sets_added_to_discriminate_an_edge", extra)
+	c.Set("same_level_chain_trees", chainTrees)
+	c.Set("max_operators_same_level_chain", chainMax)
+	c.Set("unparenthesised_conditional_chains_rejected_by_the_parser", rejected)
 	c.Set("distinct_parent_position_child_classes_at_stake", len(edges))
 	var ek []string
 	for k := range edges {
@@ -955,12 +1017,18 @@ func main() {
 	c.Set("classes_where_the_opposite_grouping_gives_another_value", len(disc))
 	c.Set("classes_not_discriminated_by_the_leaf_values", nodisc)
 	c.Assume("per-operator meaning in the reference evaluation is origami's own operator node applied to constants (C03 judges those); only the grouping comes from the check's table")
-	c.Assume("groupings the statement leaves open keep their parentheses in the minimal printing: '.' against << >> < <= > >= <=> == != === !== & ^ | && ||, chains of comparison / equality / ?: operators, assignment inside a larger expression")
+	c.Assume("groupings the statement leaves open keep their parentheses in the minimal printing: '.' against << >> < <= > >= <=> == != === !== & ^ | && ||, chains of comparison / equality operators, assignment inside a larger expression")
+	if ternaryChainsGroupRight {
+		c.Assume("a conditional in the else-branch of a conditional without parentheses (a ? b : c ? d : e, a ?: b ? c : d) groups to the right, as origami's right-recursive parseTernary and every language but PHP <= 7 have it; a parser that REJECTS such a chain (PHP 8: non-associative) is accepted, one that silently groups it to the left is reported")
+	}
 	c.Assume("instanceof, like, xor/and/or, ++/--, array/member access are not in the statement's table and are not enumerated; deeper trees than the bound are not explored")
 	if c.Exhaustive && (len(outcomes) < 4 || len(edges) < 40 || len(disc) < 60) {
 		c.HarnessError("vacuous: %d outcome classes, %d classes of dropped parentheses, %d of them told apart from the opposite grouping by the leaf values", len(outcomes), len(edges), len(disc))
 	}
-	c.Finish(trees, evals, cases, fmt.Sprintf("every well-typed expression tree with <= %d operators over %d operators (and with %d operators over the %d core operators) x leaf assignments (all boolean combinations, literal and variable leaves) x up to 6 printings; states = trees, validated = cases compared with the reference evaluation", maxFull, len(ops), coreSize, len(opsCore)))
+	if c.Exhaustive && ternaryChainsGroupRight && !(edges["ternary/else:ternary"] > 0 && disc["ternary/else:ternary"] && edges["ternary/then:ternary"] > 0) {
+		c.HarnessError("vacuous: no chain of conditionals whose two groupings differ in value was enumerated")
+	}
+	c.Finish(trees, evals, cases, fmt.Sprintf("every well-typed expression tree with <= %d operators over %d operators (and with %d operators over the %d core operators) and every tree with <= %d operators taken from one level of the table (%d for the unary and assignment levels) x leaf assignments (all boolean combinations, literal and variable leaves) x up to 6 printings; states = trees, validated = cases compared with the reference evaluation", maxFull, len(ops), coreSize, len(opsCore), chainMax, chainMax-1))
 }
 
 func replay(c *ev.Check) {
@@ -972,7 +1040,7 @@ func replay(c *ev.Check) {
 	}
 	fmt.Printf("key: %s\nshape: %s\nminimal: %s\nfull:    %s\n", key, cs.Shape, cs.Min, cs.Full)
 	lw := &localW{}
-	w := &worker{arg: shardArg{N: cs.N, Lo: cs.Idx, Hi: cs.Idx + 1, Core: cs.Core, Seed: cs.Seed}, em: lw, batch: newBatch(), ref: newRefEnv(), out: map[string]int{}, edges: map[string]int{}, disc: map[string]int{}, alt: map[string]int{}}
+	w := &worker{arg: shardArg{N: cs.N, Lo: cs.Idx, Hi: cs.Idx + 1, Core: cs.Core, Group: cs.Group, Seed: cs.Seed}, em: lw, batch: newBatch(), ref: newRefEnv(), out: map[string]int{}, edges: map[string]int{}, disc: map[string]int{}, alt: map[string]int{}}
 	w.run(func(string) bool { return true })
 	w.ref.close()
 	hit := false
